@@ -845,7 +845,7 @@ func runAll(js []job) {
 
 func main() {
 	if len(os.Args) < 2 {
-		fmt.Fprintln(os.Stderr, "usage: gc hist <n> <len> <profile> <drain rounds> | replay < jobs.json | starve <lim> <passes>")
+		fmt.Fprintln(os.Stderr, "usage: gc hist <n> <len> <profile> <drain rounds> | replay < jobs.json | split <n> | splitreplay < cases.json | starve <lim> <passes>")
 		os.Exit(2)
 	}
 	switch os.Args[1] {
@@ -875,6 +875,28 @@ func main() {
 			js = append(js, job{lim: j.Lim, ops: j.Ops, drain: j.Drain})
 		}
 		runAll(js)
+	case "split":
+		// expired split objects: fixed boundary scenarios + n generated ones
+		n, _ := strconv.Atoi(os.Args[2])
+		seed, _ := strconv.ParseUint(os.Getenv("VERIF_SEED"), 10, 64)
+		cs := fixedSplit()
+		for i := 0; i < n; i++ {
+			cs = append(cs, genSplit(seed, i))
+		}
+		for i := range cs {
+			cs[i].I = i
+		}
+		runSplitAll(cs)
+	case "splitreplay":
+		var cs []SplitCase
+		dec := json.NewDecoder(bufio.NewReaderSize(os.Stdin, 1<<20))
+		for dec.More() {
+			var c SplitCase
+			must(dec.Decode(&c))
+			c.PutRes, c.Before, c.Blob, c.Meta, c.After, c.Parent, c.Passes = nil, nil, nil, nil, nil, nil, 0
+			cs = append(cs, c)
+		}
+		runSplitAll(cs)
 	case "starve":
 		lim, _ := strconv.Atoi(os.Args[2])
 		passes, _ := strconv.Atoi(os.Args[3])
